@@ -214,6 +214,27 @@ def b_extend(c):
     if api == "defvjp":
         defvjp(user, r0, r1)
         defjvp(user, j0, j1)
+    elif api in ("deprecated", "defgrad"):
+        # the pre-1.2 registration methods on the primitive object (still exported, emit a deprecation warning)
+        import warnings
+        from autograd.core import primitive as old_primitive
+        user = old_primitive(raw)
+        with warnings.catch_warnings():
+            warnings.simplefilter("ignore")
+            zero = tuple(i for i, fl in enumerate((fl0, fl1)) if fl)
+            if api == "deprecated":
+                if not fl0:
+                    user.defvjp(lambda g, ans, vs, gvs, u, v, shift=0.0: unbroadcast(spread(g) * B(v), np.metadata(u)), argnum=0)
+                if not fl1:
+                    user.defvjp(lambda g, ans, vs, gvs, u, v, shift=0.0: unbroadcast(spread(g) * A(u), np.metadata(v)), argnum=1)
+            else:
+                if not fl0:
+                    user.defgrad(r0, argnum=0)
+                if not fl1:
+                    user.defgrad(r1, argnum=1)
+            if zero:
+                user.defvjp_is_zero(argnums=zero)
+        defjvp(user, j0, j1)
     else:
         defvjp(user, r1, r0, argnums=(1, 0))
         defjvp(user, j1, j0, argnums=(1, 0))
@@ -379,13 +400,20 @@ def b_rearr(c):
             f = lambda v: np.gradient(v)
     elif prim == "pad":
         need(nd >= 1)
-        if st == "int":
+        if st in ("int", "cv", "cvpair", "modekw"):
             w = ia
         elif st == "pair":
             w = tuple(tp)
         else:
             w = tuple((tp[2 * i], tp[2 * i + 1]) for i in range(nd))
-        f = lambda v: np.pad(v, w, "constant")
+        if st == "cv":            # a non-zero fill value: the border does not depend on the input, its tangent / cotangent is 0
+            f = lambda v: np.pad(v, w, "constant", constant_values=2.5)
+        elif st == "cvpair":
+            f = lambda v: np.pad(v, w, "constant", constant_values=(1.5, -2.0))
+        elif st == "modekw":
+            f = lambda v: np.pad(v, w, mode="constant")
+        else:
+            f = lambda v: np.pad(v, w, "constant")
     elif prim in ("split", "array_split"):
         sec = tp if st == "indices" else ia
         f = lambda v: getattr(np, prim)(v, sec, axis=ax)[min(ib, (len(tp) if st == "indices" else ia - 1))]
